@@ -7,6 +7,7 @@ import (
 	"go/ast"
 	"go/parser"
 	"go/token"
+	"hash/fnv"
 	"math/rand"
 	"os"
 	"path/filepath"
@@ -41,6 +42,12 @@ var classBytes = map[string][]string{
 }
 
 func concretise(cls []string, rng *rand.Rand) []byte { return concretiseFor(cls, rng, nil) }
+
+func caseRng(seed int64, fam string, cls []string) *rand.Rand {
+	h := fnv.New64a()
+	fmt.Fprint(h, seed, fam, cls)
+	return rand.New(rand.NewSource(int64(h.Sum64())))
+}
 
 // concretiseFor spells the classes; for a template dialect its own delimiters stand for tmplo/tmplc.
 func concretiseFor(cls []string, rng *rand.Rand, tmpl *[2]string) []byte {
@@ -136,7 +143,6 @@ func Classes(args []string) {
 	seed := fs.Int64("seed", 1, "seed")
 	only := fs.String("langs", "", "comma separated entry points (default: all of the family)")
 	fs.Parse(args)
-	rng := rand.New(rand.NewSource(*seed))
 	w := tr.NewWriter(*out)
 	sum := summary{Suite: "lexers", Mode: "classes"}
 	seen := map[string]bool{}
@@ -151,7 +157,8 @@ func Classes(args []string) {
 			os.Exit(2)
 		}
 		sum.Cases++
-		input := concretise(c.Cls, rng)
+		crng := caseRng(*seed, c.Fam, c.Cls) // independent of the order in which TLC emitted the cases
+		input := concretise(c.Cls, crng)
 		langs := familyLangs[c.Fam]
 		if *only != "" {
 			langs = nil
@@ -178,7 +185,7 @@ func Classes(args []string) {
 						pair = &p
 					}
 				}
-				st := rng.Int63()
+				st := crng.Int63()
 				runAll(w, &sum, &tid, []string{ln}, concretiseFor(c.Cls, rand.New(rand.NewSource(st)), pair), tr.E{"cls": c.Cls}, seen)
 			}
 			return
